@@ -45,6 +45,7 @@ def run(ctx):
     live_rule(ctx, prog)
     r_ev, n_ev = every_rule(ctx, prog)
     ctx.floor(r_ev, n_ev, 4, "cascade loops that remove dependents")
+    ownrow_rule(ctx, prog)
 
     # ---------------- CASC
     r_casc = ctx.rule("C02.CASC", "removing an item consults every reverse index that can name an annotation depending on it")
@@ -668,3 +669,41 @@ def every_rule(ctx, prog, rid="C02.EVERY", only=None):
             if b.can_reach(L, L, avoid=set(rm) | gone):
                 ctx.report(r, "%s|%s|skippable" % (mirq.short_fn(b.id), ",".join(names)), "%s walks its dependents and removes them with %s, but an iteration can come back to the loop head without that call: dependents that fail the test in front of it stay behind after the removal (e.g. data of a removed key that no annotation uses: still found by a scan, under a key that no longer exists)" % (b.id, "/".join(names)), b.file, t.get("line"))
     return r, loops
+
+
+# ---------------------------------------------------------------------- OWNROW
+def ownrow_rule(ctx, prog, rid="C02.OWNROW"):
+    """the pre-removal callback of one item (`<X as StoreCallbacks<T>>::preremove(handle: H)`) may drop a whole row of a
+    relation map (`remove_all(x: A)`) only when the row is the removed item's own, i.e. the map is keyed by the kind of
+    handle being removed (A == H) and the argument derives from the callback's handle parameter.  Dropping the row of
+    another kind of item (the key's row when one data item goes) un-indexes that item's surviving dependents: they are
+    alive but no longer found, and a later cascade that walks the row leaves them behind under a dangling reference.
+    Type-directed: A is read from the resolved generic arguments of the call, H from the type of the parameter."""
+    r = ctx.rule(rid, "a preremove callback drops whole rows (remove_all) only of maps keyed by the handle kind being removed, with an argument that derives from its own handle parameter; relations of other items are removed pairwise")
+    n = 0
+    bodies = [b for bid, b in sorted(prog.bodies.items()) if re.search(r"^<.* as store::private::StoreCallbacks<.*>>::preremove$", bid) and not b.d.get("derived")]
+    if len(bodies) < 5:
+        ctx.anchor_missing(r, "preremove callbacks of AnnotationStore / AnnotationDataSet (found %d, expected at least 5)" % len(bodies))
+    for b in bodies:
+        ctx.functions_analysed.add(b.id)
+        h = mirq.ty_norm(b.local_ty(2)) if b.argc >= 2 else None
+        for bi, t in b.calls():
+            if b.blocks[bi].get("cleanup"):
+                continue
+            decl, res, info = mirq.callee_of(t)
+            m = re.match(r"^store::(RelationMap|RelationBTreeMap|TripleRelationMap)::<.*>::remove_all$", decl or "")
+            if not m:
+                continue
+            n += 1
+            ga = [mirq.ty_norm(x) for x in (info or {}).get("ga") or []]
+            a = ga[0] if ga else None
+            args = t.get("args") or []
+            prov = b.provenance(args[1]) if len(args) > 1 else set()
+            own = a is not None and a == h and "arg2" in prov
+            kind = re.search(r"StoreCallbacks<(.*)>>::preremove$", b.id).group(1).split("::")[-1]
+            k = "preremove<%s>|%s<%s>" % (kind, m.group(1), ",".join(x.split("::")[-1] for x in ga))
+            r.hit(k, sample={"callback": b.id, "removed_handle": h, "row_key_type": a, "argument_derives_from_handle_param": "arg2" in prov, "own_row": own})
+            if not own:
+                ctx.report(r, k + "|foreign-row", "%s (removing one %s) drops a whole row of a %s keyed by %s%s: that is the row of another item, whose other dependents are alive - they vanish from the look-ups that read the map and a later cascade over the row leaves them behind with a dangling reference; the relation of the removed item alone is remove(key, handle)" % (b.id, (h or "?").split("::")[-1], m.group(1), (a or "?").split("::")[-1], "" if a != h else " with an argument that is not the callback's own handle"), b.file, t.get("line"))
+    ctx.floor(r, n, 5, "whole-row clean-ups in preremove callbacks")
+    return r, n
